@@ -109,7 +109,7 @@ def run_check(tier, seed):
         audit = props_audit(PROP)
         ev.cov['obligations'] = audit['obligations']
         ev.cov['discharged'] = audit['discharged']
-        hy = hygiene()
+        hy = hygiene(coq_cone(PROP))
         if hy:
             broken.append({'kind': 'hygiene', 'offences': hy[:20]})
             ev.cov['discharged'] = 0
@@ -135,7 +135,7 @@ def run_check(tier, seed):
             else: pr = parse_probe(out)
     # C probe
     cp = None
-    cdir = os.path.join(CACHE, 'cprobe'); os.makedirs(cdir, exist_ok=True)
+    cdir = os.path.join(SCRATCH, 'cprobe'); os.makedirs(cdir, exist_ok=True)
     open(os.path.join(cdir, 'p.c'), 'w').write(gen_cprobe(k, m))
     rc, out = run(['gcc', '-O0', '-o', 'p', 'p.c'], cwd=cdir, timeout=120)
     if rc == 0:
